@@ -730,9 +730,11 @@ end quad
 /-! ### `cubic_polynomial_roots` and cubic × line (partial)
 
 Proved: the linear and quadratic sub-branches (taken when `|a| < epsilon`) return roots of the
-TRUNCATED polynomial, hence of the cubic when `a = 0`.  Missing (named gap): the Cardano branches
-(`pow(·, 1/3)`, `acos`, `cos` laws) — and they are not sound as coded, see the findings
-`cardano-double-root-eps` / `cardano-cancellation`; the tie and the oracle cover them. -/
+TRUNCATED polynomial, hence of the cubic when `a = 0`.  Since lyon commit 6fcbec49 the first root of the one-real-root Cardano branch is proved as well
+(`cubic_roots_sound_partial_cardano`).  Missing (named gap): the optional "repeated root" value
+and the trigonometric branch (`acos`, `cos` laws); the tie and the oracle cover them.  Former
+defects of this function (`cardano-double-root-eps`, `cardano-cancellation`) are recorded as
+fixed findings with their witnesses. -/
 
 section cubic
 variable [Transc K] [Eps K]
@@ -782,6 +784,114 @@ theorem cubic_roots_sound_partial_quadratic (hsq : ∀ x : K, 0 ≤ x → Transc
       apply mul_left_cancel₀ (mul_ne_zero (four_ne_zero (α := K)) hb0)
       linear_combination (x * (2 * b) + (-c + r) + 2 * c) * h + hr2
   exact ⟨key, by linear_combination key⟩
+
+/-! #### The repaired Cardano branch (one real root), lyon commit 6fcbec49
+
+With `s·t = −δ0` holding by construction, the first value pushed in the branch `δ0³ + δ1² ≥ 0`
+is a root.  Laws used (hypotheses): `sqrt x ≥ 0` and `sqrt x · sqrt x = x` for `x ≥ 0`;
+`(pow x (1/3))³ = x` for `x ≥ 0` (so that `signum x · pow |x| (1/3)` is a cube root of `x`). -/
+
+/-- Cardano's identity with the product relation: if `O·B = −δ0`, `B³ = δ1 + ρ` and
+`ρ² = δ0³ + δ1²`, then `y = B + O` solves the depressed cubic `y³ + 3δ0·y − 2δ1 = 0`. -/
+theorem cardano_alg (B O d0 d1 ρ : K) (hB : B ≠ 0) (h1 : O * B = -d0) (h2 : B ^ 3 = d1 + ρ)
+    (h3 : ρ * ρ = d0 ^ 3 + d1 * d1) : (B + O) ^ 3 + 3 * d0 * (B + O) - 2 * d1 = 0 := by
+  apply mul_left_cancel₀ (pow_ne_zero 3 hB)
+  linear_combination (B ^ 3 + ρ - d1) * h2 + h3
+    + ((O * B + d0) ^ 2 - 3 * (O * B + d0) * d0 + 3 * d0 ^ 2 + 3 * B ^ 3 * (B + O)) * h1
+
+/-- `x.signum() * |x|.powf(1/3)` cubes back to `x` -/
+theorem cbrtS_cube (hpow : ∀ x : K, 0 ≤ x → Transc.pow x (Roots.frac13 : K) ^ 3 = x) (x : K) :
+    Roots.cbrtS x ^ 3 = x := by
+  unfold Roots.cbrtS
+  rw [sc_abs, mul_pow, hpow _ (abs_nonneg x)]
+  have h := sgn_sq x
+  have h2 := sgn_mul_abs x
+  calc Sgn.signum x ^ 3 * |x| = (Sgn.signum x * Sgn.signum x) * (Sgn.signum x * |x|) := by ring
+    _ = x := by rw [h, h2, one_mul]
+
+/-- `s + t` of the repaired code solves the depressed cubic -/
+theorem cardano_sum_root (hs0 : ∀ x : K, 0 ≤ x → 0 ≤ Transc.sqrt x)
+    (hsq : ∀ x : K, 0 ≤ x → Transc.sqrt x * Transc.sqrt x = x)
+    (hpow : ∀ x : K, 0 ≤ x → Transc.pow x (Roots.frac13 : K) ^ 3 = x)
+    (d0 d1 : K) (hΔ : 0 ≤ Roots.delta01 d0 d1) :
+    (Roots.cS d0 d1 + Roots.cT d0 d1) ^ 3 + 3 * d0 * (Roots.cS d0 d1 + Roots.cT d0 d1) - 2 * d1 = 0 := by
+  have hz : (Scalar.zero : K) = 0 := by simp [Scalar.zero]
+  have hsum : Roots.cS d0 d1 + Roots.cT d0 d1 = Roots.cBig d0 d1 + Roots.cOther d0 d1 := by
+    unfold Roots.cS Roots.cT
+    split
+    · rfl
+    · exact add_comm _ _
+  rw [hsum]
+  have hr := hsq _ hΔ
+  have hr0 := hs0 _ hΔ
+  have hΔe : Roots.delta01 d0 d1 = d0 ^ 3 + d1 * d1 := by unfold Roots.delta01; ring
+  -- B³ = δ1 + ρ with ρ = ±sqrt Δ
+  obtain ⟨ρ, hρ, hB3, hzero⟩ : ∃ ρ : K, ρ * ρ = d0 ^ 3 + d1 * d1 ∧ Roots.cBig d0 d1 ^ 3 = d1 + ρ
+      ∧ (d1 + ρ = 0 → d1 = 0 ∧ ρ = 0) := by
+    unfold Roots.cBig
+    by_cases h : d1 ≥ (Scalar.zero : K)
+    · rw [if_pos h]
+      rw [hz] at h
+      refine ⟨Transc.sqrt (Roots.delta01 d0 d1), by rw [hr, hΔe], cbrtS_cube hpow _, ?_⟩
+      intro h0; constructor <;> linarith
+    · rw [if_neg h]
+      rw [hz, ge_iff_le, not_le] at h
+      refine ⟨-Transc.sqrt (Roots.delta01 d0 d1), by rw [neg_mul_neg, hr, hΔe], ?_, ?_⟩
+      · rw [cbrtS_cube hpow]; ring
+      · intro h0; exfalso; linarith
+  by_cases hB : Roots.cBig d0 d1 = 0
+  · have hO : Roots.cOther d0 d1 = 0 := by
+      unfold Roots.cOther; rw [if_pos ((beq_zero_iff _).mpr hB)]; exact hz
+    rw [hB] at hB3
+    have h0 : d1 + ρ = 0 := by rw [← hB3]; ring
+    obtain ⟨e1, e2⟩ := hzero h0
+    rw [hB, hO, e1]; ring
+  · have hO : Roots.cOther d0 d1 * Roots.cBig d0 d1 = -d0 := by
+      unfold Roots.cOther
+      rw [if_neg (fun h => hB ((beq_zero_iff _).mp h))]
+      exact div_mul_cancel₀ _ hB
+    exact cardano_alg _ _ d0 d1 ρ hB hO hB3 hρ
+
+/-- substitution `x = y − bn/3`: the normalised cubic in `x` is the depressed cubic in `y` -/
+theorem depressed_eq (bn cn dn y : K) :
+    (-bn * Roots.frac13 + y) ^ 3 + bn * (-bn * Roots.frac13 + y) ^ 2 + cn * (-bn * Roots.frac13 + y) + dn
+      = y ^ 3 + 3 * Roots.delta0 bn cn * y - 2 * Roots.delta1 bn cn dn := by
+  simp only [geom, Nat.cast_ofNat, Nat.cast_one]
+  ring
+
+/-- **Soundness of the repaired one-real-root branch (partial)**: when `|a| ≥ ε` and
+`δ0³ + δ1² ≥ 0`, the FIRST value returned by `cubic_polynomial_roots` is a root of
+`a x³ + b x² + c x + d`.  Partial: the optional second value (the "repeated root", exact only when
+`s = t`) and the trigonometric branch (`acos`/`cos` laws) are not covered. -/
+theorem cubic_roots_sound_partial_cardano (hs0 : ∀ x : K, 0 ≤ x → 0 ≤ Transc.sqrt x)
+    (hsq : ∀ x : K, 0 ≤ x → Transc.sqrt x * Transc.sqrt x = x)
+    (hpow : ∀ x : K, 0 ≤ x → Transc.pow x (Roots.frac13 : K) ^ 3 = x)
+    (e a b c d : K) (he : 0 < e) (ha : ¬ |a| < e)
+    (hΔ : 0 ≤ Roots.delta01 (Roots.delta0 (b / a) (c / a)) (Roots.delta1 (b / a) (c / a) (d / a))) :
+    ∃ x rest, Roots.rootsWith e a b c d = x :: rest ∧ a * x ^ 3 + b * x ^ 2 + c * x + d = 0 := by
+  have hz : (Scalar.zero : K) = 0 := by simp [Scalar.zero]
+  have ha0 : a ≠ 0 := by
+    intro h; apply ha; rw [h, abs_zero]; exact he
+  unfold Roots.rootsWith
+  rw [if_neg (by rw [sc_abs]; exact ha)]
+  unfold Roots.cardano
+  rw [if_pos (by rw [hz]; exact hΔ)]
+  unfold Roots.cardano1
+  refine ⟨_, _, List.singleton_append, ?_⟩
+  have h := cardano_sum_root hs0 hsq hpow _ _ hΔ
+  have hd := depressed_eq (b / a) (c / a) (d / a)
+    (Roots.cS (Roots.delta0 (b / a) (c / a)) (Roots.delta1 (b / a) (c / a) (d / a))
+      + Roots.cT (Roots.delta0 (b / a) (c / a)) (Roots.delta1 (b / a) (c / a) (d / a)))
+  rw [h] at hd
+  set x := -(b / a) * Roots.frac13
+    + (Roots.cS (Roots.delta0 (b / a) (c / a)) (Roots.delta1 (b / a) (c / a) (d / a))
+      + Roots.cT (Roots.delta0 (b / a) (c / a)) (Roots.delta1 (b / a) (c / a) (d / a)))
+  have e1 : a * x ^ 3 + b * x ^ 2 + c * x + d = a * (x ^ 3 + b / a * x ^ 2 + c / a * x + d / a) := by
+    field_simp
+  rw [e1, hd, mul_zero]
+
+/-- non-vacuity: `x³ − 1` has `δ0 = 0`, `δ1 = 1/2`, `δ0³ + δ1² = 1/4 ≥ 0` -/
+example : (0:ℚ) ≤ 0 * 0 * 0 + (1/2) * (1/2) := by norm_num
 
 /-- the polynomial handed to the root finder vanishes exactly at the parameters whose point lies
 on the line (no normalisation here: `cross(vector, p - point)` itself) -/
